@@ -44,6 +44,12 @@ pr::Manifest forge_manifest(const pr::Manifest& base, int kind, sk::Rng& g) {
     return m;
 }
 
+// endpoints a peer may announce for itself: they are stored as contacts and parsed later, when the node next plans a
+// swarm (a further announce, a local store) or retries a fetch
+const char* kNastyEndpoints[] = {"198.51.100.7:99999999999999999999999999", "198.51.100.7:18446744073709551616", "198.51.100.7:", ":4000", ":", "198.51.100.7:-1", "198.51.100.7:0", "198.51.100.7:65536",
+                                 "198.51.100.7:+80", "198.51.100.7: 80", "[::1]:80", "198.51.100.7:80:80", "198.51.100.7:0x50", "198.51.100.7:4294967296", "\x01\x02:7", "198.51.100.7:80\n", "host:\xd9\xa3\xd9\xa3"};
+constexpr std::size_t kNastyEndpointCount = sizeof kNastyEndpoints / sizeof kNastyEndpoints[0];
+
 Plan gen_c35(sk::Rng& r, Tier) {
     Plan p;
     gen_w4_knobs(p, r);
@@ -57,12 +63,13 @@ Plan gen_c35(sk::Rng& r, Tier) {
         else if (c < 32) { op.k = "t_hs_shape"; op.a = {static_cast<std::int64_t>(r.below(7)), static_cast<std::int64_t>(r.below(3)), static_cast<std::int64_t>(r.below(1u << 30))}; }
         else if (c < 62) {
             op.k = "t_session";  // three signed/unsigned actions on an established session, then how the peer leaves
-            op.a = {static_cast<std::int64_t>(r.below(12)), static_cast<std::int64_t>(r.below(12)), static_cast<std::int64_t>(r.below(12)),
+            op.a = {static_cast<std::int64_t>(r.below(13)), static_cast<std::int64_t>(r.below(13)), static_cast<std::int64_t>(r.below(13)),
                     static_cast<std::int64_t>(r.below(kManifestForgeries)), static_cast<std::int64_t>(r.below(3)), static_cast<std::int64_t>(r.below(1u << 30)), r.pick<std::int64_t>({1, 2, 3, 4, 4, 17})};
         }
+        else if (c < 70) { op.k = "t_poison"; op.a = {static_cast<std::int64_t>(r.below(17)), r.chance(3, 4) ? 0 : static_cast<std::int64_t>(r.below(kManifestForgeries)), static_cast<std::int64_t>(r.below(3)), static_cast<std::int64_t>(r.below(1u << 30)), static_cast<std::int64_t>(r.below(2))}; }
         else if (c < 82) { op.k = "c_raw"; op.a = {static_cast<std::int64_t>(r.below(24)), static_cast<std::int64_t>(r.below(4)), static_cast<std::int64_t>(r.below(1u << 30))}; }
         else if (c < 90) { op.k = "c_fetch_forged"; op.a = {static_cast<std::int64_t>(r.below(kManifestForgeries)), static_cast<std::int64_t>(r.below(2)), static_cast<std::int64_t>(r.below(1u << 30)), static_cast<std::int64_t>(r.below(3))}; }
-        else { op.k = "honest"; op.a = {static_cast<std::int64_t>(r.below(3))}; }
+        else { op.k = "honest"; op.a = {static_cast<std::int64_t>(r.below(4))}; }
         p.ops.push_back(op);
     }
     return p;
@@ -173,6 +180,16 @@ void exec_c35(const Plan& p, Ctx& ctx) {
             if (stalled_control + stalled_transport > 0) ctx.boundary("honest_request_while_silent_attackers_connected");
             if (what == 0) { bool ok = false; honest.call([&] { while (!ok && sk::now_ns() < give_up && sk::alive(e.d.pid)) ok = e.d.ping(10000); }); if (!ok && sk::alive(e.d.pid)) ctx.violate("C35.honest_ping_unanswered", fmt("an honest PING between attacks got no answer within %d s (%d silent control, %d silent transport connections open)", honest_bound_ms() / 1000, stalled_control, stalled_transport)); }
             else if (what == 1) { bool ok = false; for (int i = 0; !ok && sk::now_ns() < give_up && sk::alive(e.d.pid); ++i) ok = honest_handshake(e, honest, opn * 8 + i, 10000); if (!ok && sk::alive(e.d.pid)) ctx.violate("C35.honest_handshake_refused", fmt("no honest transport handshake succeeded within %d s between attacks (%d silent transport connections open)", honest_bound_ms() / 1000, stalled_transport)); }
+            else if (what == 3) {
+                // an honest local store: plans a swarm over whatever contacts the node has learned
+                const auto pl = make_payload(300, 35500 + static_cast<std::uint64_t>(opn));
+                std::vector<std::uint8_t> body(pl.begin(), pl.end());
+                std::vector<std::pair<std::string, std::string>> f{{"COMMAND", "STORE"}, {"TTL", "900"}, {"STORE-POW", std::to_string(ref_solve_store_pow(body, "", 6))}, {"PAYLOAD-LENGTH", std::to_string(body.size())}};
+                if (e.token) f.push_back({"TOKEN", *e.token});
+                CtlReply rep;
+                honest.call([&] { rep = ctl_exchange(e.host, e.d.control_port, ctl_headers(f), body, false, 15000); });
+                ctx.probe(rep.ok ? "honest_store_ok" : "honest_store_refused");
+            }
             else { CtlReply rep; honest.call([&] { while (!rep.got_status && sk::now_ns() < give_up && sk::alive(e.d.pid)) rep = ctl_exchange(e.host, e.d.control_port, ctl_headers({{"COMMAND", "LIST"}}), {}, false, 10000); }); if (!rep.got_status && sk::alive(e.d.pid)) ctx.violate("C35.honest_list_unanswered", fmt("an honest LIST between attacks got no answer within %d s", honest_bound_ms() / 1000)); }
         } else if (op.k == "t_pre_bytes" || op.k == "t_pre_len" || op.k == "t_hs_shape") {
             if ((op.k == "t_pre_len" ? op.at(2) : op.at(1)) == 2) ++stalled_transport;
@@ -241,13 +258,18 @@ void exec_c35(const Plan& p, Ctx& ctx) {
                     m.payload = an;
                     return send(m);
                 };
+                // endpoints a peer may announce for itself: they are stored as contacts and parsed later, when the node
+                // next plans a swarm (a further announce, a local store) or retries a fetch
+                auto nasty_endpoint = [&]() -> std::string { return kNastyEndpoints[g.below(kNastyEndpointCount)]; };
+                auto own_endpoint = [&] { return g.chance(1, 2) ? nasty_endpoint() : ip_text(a.host) + ":46000"; };
                 for (int step = 0; step < 3; ++step) {
                     const int act = static_cast<int>(op.at(static_cast<std::size_t>(step)));
                     bool ok = true;
                     switch (act) {
-                        case 0: ok = announce(forged_foreign, uri_foreign, 600, ip_text(a.host) + ":46000", {1, 2}); break;
+                        case 12: sk::sleep_ns((en::Config{}.announce_min_interval.count() + 1) * kSec); break;  // let a further announce of this peer pass the throttle
+                        case 0: ok = announce(forged_foreign, uri_foreign, 600, own_endpoint(), {1, 2}); break;
                         case 1: { pr::Message m{}; m.type = pr::MessageType::Chunk; pr::ChunkPayload cp{}; cp.chunk_id = foreign.chunk_id; cp.data = foreign_cipher; if (g.chance(1, 3)) cp.data.resize(cp.data.size() / 2); cp.ttl = std::chrono::seconds(600); m.payload = cp; ok = send(m); break; }
-                        case 2: ok = announce(forged_stored, uri_stored, 600, ip_text(a.host) + ":46000", {}); break;
+                        case 2: ok = announce(forged_stored, uri_stored, 600, own_endpoint(), {}); break;
                         case 3: { pr::Message m{}; m.type = pr::MessageType::Chunk; pr::ChunkPayload cp{}; cp.chunk_id = e.stored.chunk_id; cp.data.assign(g.below(2000), 0x33); cp.ttl = std::chrono::seconds(static_cast<std::int64_t>(g.pick<std::int64_t>({0, 1, 600, 4000000000LL}))); m.payload = cp; ok = send(m); break; }
                         case 4: { pr::Message m{}; m.type = pr::MessageType::Request; m.payload = pr::RequestPayload{make_id(static_cast<std::uint8_t>(g.below(256)), 0x35), me.id}; ok = send(m); break; }
                         case 5: { pr::Message m{}; m.type = pr::MessageType::Request; m.payload = pr::RequestPayload{e.stored.chunk_id, me.id}; ok = send(m); if (g.chance(1, 2)) { leave(c, 1); return; } break; }  // ask for a held chunk and reset before it arrives
@@ -265,6 +287,45 @@ void exec_c35(const Plan& p, Ctx& ctx) {
                 sk::sleep_ns(500 * kMs);
                 leave(c, static_cast<int>(op.at(4)));
             });
+        } else if (op.k == "t_poison") {
+            // two-step attack: get a contact with an awkward endpoint accepted, then make the node use it
+            Actor& a = attacker();
+            const int forgery = static_cast<int>(op.at(1));
+            const int trigger = static_cast<int>(op.at(2));
+            label = std::string("t_poison.") + forgery_name[forgery];
+            a.call([&] {
+                PeerConn c;
+                const PeerIdentity me = PeerIdentity::make(static_cast<std::uint8_t>(0x70 + opn), 1700021u + static_cast<std::uint32_t>(opn) * 32452843u);
+                if (!scripted_handshake(c, me, e.daemon_id, e.daemon_pub, e.hs_bits, e.host, e.d.transport_port, 8000)) { ctx.probe("byz_handshake_failed"); c.close_now(); return; }
+                sk::Rng g(static_cast<std::uint64_t>(op.at(3)) + 9);
+                const pr::Manifest man = forge_manifest(foreign, forgery, g);
+                std::string uri;
+                try { uri = pr::encode_manifest(man); } catch (...) { c.close_now(); return; }
+                auto announce = [&](const std::string& endpoint, std::vector<std::uint8_t> shards) {
+                    pr::Message m{};
+                    m.type = pr::MessageType::Announce;
+                    pr::AnnouncePayload an{};
+                    an.chunk_id = man.chunk_id; an.peer_id = me.id; an.endpoint = endpoint; an.ttl = std::chrono::seconds(600); an.manifest_uri = uri; an.assigned_shards = std::move(shards);
+                    ref_solve_announce_pow(an, e.announce_bits);
+                    m.payload = an;
+                    return c.send_signed(m);
+                };
+                const std::string endpoint = kNastyEndpoints[static_cast<std::size_t>(op.at(0)) % kNastyEndpointCount];
+                if (!announce(endpoint, op.at(4) && !man.shards.empty() ? std::vector<std::uint8_t>{man.shards[0].index} : std::vector<std::uint8_t>{})) { c.close_now(); return; }
+                ctx.probe("poison_announce_sent");
+                sk::sleep_ns((en::Config{}.announce_min_interval.count() + 1) * kSec);
+                if (trigger != 1) { announce(endpoint, {}); ctx.probe("poison_second_announce"); sk::sleep_ns(kSec); }
+                if (op.at(4)) { leave(c, 1); sk::sleep_ns(8 * kSec); }  // with a fetch assigned, dropping the session makes the retry path parse the stored endpoint
+                else c.close_now();
+            });
+            if (trigger != 0 && sk::alive(e.d.pid)) {
+                const auto pl = make_payload(300, 35700 + static_cast<std::uint64_t>(opn));
+                std::vector<std::uint8_t> body(pl.begin(), pl.end());
+                std::vector<std::pair<std::string, std::string>> f{{"COMMAND", "STORE"}, {"TTL", "900"}, {"STORE-POW", std::to_string(ref_solve_store_pow(body, "", 6))}, {"PAYLOAD-LENGTH", std::to_string(body.size())}};
+                if (e.token) f.push_back({"TOKEN", *e.token});
+                honest.call([&] { (void)ctl_exchange(e.host, e.d.control_port, ctl_headers(f), body, false, 15000); });
+                ctx.probe("poison_store_trigger");
+            }
         } else if (op.k == "c_raw" || op.k == "c_fetch_forged") {
             Actor& a = attacker();
             sk::Rng g(static_cast<std::uint64_t>(op.at(2)) + 11);
